@@ -162,6 +162,8 @@ class GateAnalysis(taint.FnAnalysis):
         if rv[0] == "bin" and rv[1] in ("Eq", "Ne", "Lt", "Le", "Gt", "Ge"):
             lab = self.cmp_label(rv)
             if lab is not None:
+                if len(place) == 1:
+                    self.eng.fact_sites.setdefault(lab, set()).add((self.fn["id"], getattr(self, "_cur_bi", None), place[0]))
                 super().assign(place, rv, st, ctrl | frozenset([lab]), line)
                 return
         super().assign(place, rv, st, ctrl, line)
@@ -183,6 +185,7 @@ class GateAnalysis(taint.FnAnalysis):
     def exec_block(self, bi, st):
         # `match slice.len() { 33 => .. }` / `match word { .. }`: the switch itself is the test
         t = self.body.blocks[bi]["t"]
+        self._cur_bi = bi
         if t[0] == "switch":
             dsc = self.pol.describer(self.eng, self.fn)
             td = self.f.ty(t[5]) if len(t) > 5 else {}
@@ -191,6 +194,7 @@ class GateAnalysis(taint.FnAnalysis):
                 if D is not None and descr.mentions_input(D):
                     vals = ",".join(str(int(v)) for v, _b in t[2])
                     self.disc[bi] = self.disc.get(bi, taint.EMPTY) | frozenset([("cmpm", D, "match", vals)])
+                    self.eng.fact_sites.setdefault(("cmpm", D, "match", vals), set()).add((self.fn["id"], bi, None))
         super().exec_block(bi, st)
 
     def cmp_label(self, rv):
@@ -240,7 +244,10 @@ class GateAnalysis(taint.FnAnalysis):
                 D = dsc.subst_value(l[1], args)
                 if D is None or not descr.mentions_input(D):
                     continue   # no longer about this function's inputs
-                extra.add((l[0], D, l[2], l[3]))
+                nl = (l[0], D, l[2], l[3])
+                if nl != l and l in self.eng.fact_sites:
+                    self.eng.fact_sites.setdefault(nl, set()).update(self.eng.fact_sites[l])
+                extra.add(nl)
             else:
                 na = []
                 for x in l[2]:
@@ -255,6 +262,10 @@ class GateAnalysis(taint.FnAnalysis):
 
 
 class GateEngine(taint.Engine):
+    def __init__(self, *a, **kw):
+        taint.Engine.__init__(self, *a, **kw)
+        self.fact_sites = {}    # fact label -> {(fn id, block, bool local | None)}: where the comparison is made
+
     def summary(self, fn):
         fid = fn["id"]
         s = self.summaries.get(fid)
@@ -295,6 +306,132 @@ def label_str(l, pol=None, fn=None):
     return None
 
 
+# ---------------------------------------------------------------------------
+# G12: a required rejection test made by a branch must actually reject
+# ---------------------------------------------------------------------------
+
+def _failure_rvalue(rv):
+    if rv[0] == "use":
+        c = const_int(rv[1])
+        return c == 0
+    if rv[0] == "agg":
+        k = rv[1]
+        if k.get("path", "").endswith("option::Option") and k.get("variant") == 0:
+            return True
+        if k.get("k") == "tuple" and rv[2] and const_int(rv[2][-1]) == 0:
+            return True
+    return False
+
+
+def success_blocks(body):
+    """blocks that give the return place a value that is not a literal failure (false / 0 / None)."""
+    out = set()
+    for bi in body.reach:
+        blk = body.blocks[bi]
+        for st in blk["s"]:
+            if st[0] == "A" and st[1][0] == 0 and not _failure_rvalue(st[2]):
+                out.add(bi)
+        t = blk["t"]
+        if t[0] == "call" and t[3] and t[3][0] == 0:
+            out.add(bi)
+    return out
+
+
+def _reaches_any(body, start, targets):
+    seen = set()
+    st = [start]
+    while st:
+        x = st.pop()
+        if x in seen:
+            continue
+        seen.add(x)
+        if x in targets:
+            return True
+        st.extend(body.succ[x])
+    return False
+
+
+def reject_ok(facts, site, memo):
+    """True: some switch on this comparison has an edge from which no success value is reachable; False: the
+    comparison is branched on but every outcome can still reach a success value; None: not used as a branch."""
+    if site in memo:
+        return memo[site]
+    fid, bi, bl = site
+    fn = facts.fns.get(fid)
+    res = None
+    if fn is not None and bi is not None:
+        body = Body(fn)
+        rt = facts.ty(body.local_ty(0))
+        if not (rt.get("k") == "tuple" and not rt.get("elems")):
+            succ = success_blocks(body)
+            switches = []
+            if bl is None:
+                switches.append(bi)
+            else:
+                for sb in body.reach:
+                    t = body.blocks[sb]["t"]
+                    if t[0] != "switch":
+                        continue
+                    l = operand_local(t[1])
+                    for _ in range(6):
+                        if l is None or l == bl:
+                            break
+                        d = body.single_def(l)
+                        if d and d[2] == "A" and d[3][2][0] == "use":
+                            l = operand_local(d[3][2][1])
+                        elif d and d[2] == "A" and d[3][2][0] == "un" and d[3][2][1] == "Not":
+                            l = operand_local(d[3][2][2])
+                        else:
+                            l = None
+                    if l == bl and sb in body.reach:
+                        switches.append(sb)
+            for sb in switches:
+                t = body.blocks[sb]["t"]
+                edges = [b for _v, b in t[2]] + [t[3]]
+                if any(not _reaches_any(body, e, succ) for e in edges):
+                    res = True
+                    break
+                res = False
+    memo[site] = res
+    return res
+
+
+_calltree_memo = {}
+
+
+def calltree(facts, fid):
+    key = (id(facts), fid)
+    if key in _calltree_memo:
+        return _calltree_memo[key]
+    seen = {fid}
+    work = [fid]
+    while work:
+        fn = facts.fns.get(work.pop())
+        if fn is None:
+            continue
+        for b in fn["blocks"]:
+            t = b["t"]
+            if t[0] == "call" and t[1].get("id") in facts.fns and t[1]["id"] not in seen:
+                seen.add(t[1]["id"])
+                work.append(t[1]["id"])
+    _calltree_memo[key] = seen
+    return seen
+
+
+def reject_verdicts(facts, eng, fn, have, labmap, pat, memo):
+    """[(verdict, site, fact string)] for the comparison sites (inside fn's call tree) of the facts matching pat."""
+    tree = calltree(facts, fn["id"])
+    out = []
+    for h in have:
+        if re.fullmatch(pat, h):
+            for lab in labmap.get(h, ()):
+                if lab[0] in ("cmp", "cmpm"):
+                    for site in eng.fact_sites.get(lab, ()):
+                        if site[0] in tree:
+                            out.append((reject_ok(facts, site, memo), site, h))
+    return out
+
+
 def result_labels(summ):
     out = set(summ.ret)
     for v in summ.ret_cells.values():
@@ -302,7 +439,7 @@ def result_labels(summ):
     return out
 
 
-def gate_strings(summ, include_out=False, pol=None, fn=None):
+def gate_strings(summ, include_out=False, pol=None, fn=None, labmap=None):
     labs = result_labels(summ)
     if include_out:
         for v in summ.out.values():
@@ -313,6 +450,8 @@ def gate_strings(summ, include_out=False, pol=None, fn=None):
             s = label_str(l, pol, fn)
             if s:
                 out.add(s)
+                if labmap is not None:
+                    labmap.setdefault(s, set()).add(l)
     return out
 
 
@@ -519,6 +658,8 @@ def run_gates(facts, run, prop):
     cfg = facts.config
     n_gates = 0
     n_fns = 0
+    n12 = 0
+    memo12 = {}
     for ent in table["functions"]:
         if prop not in ent["props"] and not (prop == "C18" and "C05" in ent["props"]):
             continue
@@ -535,7 +676,8 @@ def run_gates(facts, run, prop):
         for fn in matched:
             n_fns += 1
             summ = eng.summary(fn)
-            have_all = gate_strings(summ, include_out=ent.get("include_out", False), pol=eng.policy, fn=fn)
+            labmap = {}
+            have_all = gate_strings(summ, include_out=ent.get("include_out", False), pol=eng.policy, fn=fn, labmap=labmap)
             for g in ent["gates"]:
                 if g.get("props") and prop not in g["props"] and prop != "C18":
                     continue
@@ -549,6 +691,25 @@ def run_gates(facts, run, prop):
                 if ok:
                     if n_gates % 9 == 0:
                         run.sample("%s: gate /%s/ reaches the result (%s)" % (fn["name"], pat, g["why"]))
+                    # G12: a test that rejected by a branch on the reviewed tree (gates.json "rejects") must still do so:
+                    # when the matching comparisons are branched on, at least one must have an outcome that cannot
+                    # reach a success value (otherwise the test is evaluated but no longer rejects anything)
+                    if g.get("rejects"):
+                        verdicts = reject_verdicts(facts, eng, fn, have, labmap, pat, memo12)
+                        if verdicts and any(v[0] is not None for v in verdicts):
+                            n12 += 1
+                            good = any(v[0] for v in verdicts)
+                            run.oblige(ok=good)
+                            if not good:
+                                v = [x for x in verdicts if x[0] is False][0]
+                                sfn = facts.fns[v[1][0]]
+                                tt = sfn["blocks"][v[1][1]]["t"]
+                                sline = tt[4] if tt[0] == "switch" else sfn["line"]
+                                run.add(Finding("G12", "%s|%s" % (norm_name(fn["name"]), pat),
+                                                "gates G12: in %s the required test `%s` (made in %s, %s:%s) is branched on, but both outcomes "
+                                                "can still reach a success value: the test no longer rejects -- %s" % (
+                                                    fn["name"], v[2], sfn["name"], sfn["file"], sline, g["why"]),
+                                                config=cfg, site="%s:%s" % (sfn["file"], sline), prop=prop))
                 else:
                     run.add(Finding("G3", "%s|%s" % (norm_name(fn["name"]), pat),
                                     "gates: in %s (%s:%s) the result depends on %d check fact(s) matching /%s/ where the specification needs %d -- %s" % (
@@ -572,5 +733,5 @@ def run_gates(facts, run, prop):
         from . import lmsstate
         lmsstate.run_lmsstate(facts, run, prop)
     run.stats = getattr(run, "stats", {})
-    run.stats.update(gate_fns=n_fns, gates=n_gates, call_arg_rules=n_ca, engine=eng.stats)
+    run.stats.update(gate_fns=n_fns, gates=n_gates, reject_edge_rules=n12, call_arg_rules=n_ca, engine=eng.stats)
     return eng
